@@ -21,8 +21,9 @@ LEVEL = ('decides properties of the code that only runs under non-default option
          'minimisers, conflict-analysis tables, nogood deletion, decision read-back, no-learning '
          'resolver, constraint builders, reified reasons — wherever they are not already registered '
          'here under another id. The learned-nogood database is reduced only at the start of propagate'
-         ' and never before an asserting predicate is posted (J14 WHO-MAY-CALL/ORDER). Does not decide'
-         ' equality of answers across option values, nor termination under forget-everything settings')
+         ' and never before an asserting predicate is posted (J14 WHO-MAY-CALL/ORDER). The restart '
+         'strategy moving average stores window_size whenever it shrinks (J15). Does not decide '
+         'equality of answers across option values, nor termination under forget-everything settings')
 TECHNIQUE = "static analysis: dominance / who-may-call / call-graph closure / arity agreement over rustc MIR"
 
 
